@@ -36,9 +36,11 @@ def setup():
 @st.composite
 def fit_case(draw):
     n = draw(st.integers(20, 250))
-    fam = draw(st.sampled_from(['uniform', 'jitter', 'clustered', 'sparse-tail']))
+    fam = draw(st.sampled_from(['uniform', 'jitter', 'clustered', 'sparse-tail', 'pixels']))
     span = draw(st.sampled_from([1.0, 10.0, 100.0]))
-    if fam == 'uniform':
+    if fam == 'pixels':
+        x = [float(i) for i in range(n)]            # pixel indices; also fitted from an integer array (see `xdtype`)
+    elif fam == 'uniform':
         x = [span * i / (n - 1) for i in range(n)]
     elif fam == 'jitter':
         x = sorted(span * (i + 0.45 * draw(uf)) / n for i in range(n))
@@ -66,7 +68,8 @@ def fit_case(draw):
     zeros = [i for i in range(n) if zf and (math.sin(12.9898 * i + 78.233 * noise[i % 16]) * 43758.5453) % 1.0 < zf]
     wkind = draw(st.sampled_from(['const', 'vary']))
     return dict(x=x, nord=nord, kw=kw, ykind=ykind, amp=amp, coef=coef, noise=noise, zeros=zeros, wkind=wkind,
-                alpha=draw(uf), beta=draw(uf))
+                alpha=draw(uf), beta=draw(uf), xdtype=draw(st.sampled_from(['i8', 'u2', 'u4', 'i4', 'u8'])) if fam == 'pixels' else None,
+                counts=draw(st.sampled_from([None, None, 'i2', 'u2', 'i4'])))
 
 
 def make_y(case, x, which=0):
@@ -155,6 +158,29 @@ def fit_body(case):
         with judge('zero-weight'):
             check(bool(np.all(np.abs(np.asarray(b2.coeff) - coeff) <= ctol)), 'fit:zero-weight-points-influence-the-fit',
                   lambda: dict(maxdev=float(np.abs(np.asarray(b2.coeff) - coeff).max())))
+    # the same numbers held in other types give the same fit: pixel indices in an (unsigned) integer array, photon counts and
+    # whole-number weights in 16-bit integers (their product does not fit in 16 bits)
+    if case.get('xdtype'):
+        xi = x.astype(case['xdtype'])
+        bi = call(bspline, xi.copy(), nord=nord, **{k: (v.copy() if hasattr(v, 'copy') else v) for k, v in kw.items()})
+        si, yfi = call(bi.fit, xi.copy(), y.copy(), w.copy())
+        with judge('integer-abscissae'):
+            check(int(np.ravel(si)[0]) == 0 and np.shape(bi.coeff) == coeff.shape and bool(np.all(np.abs(np.asarray(bi.coeff, dtype='f8') - coeff) <= ctol)),
+                  'fit:integer-abscissae-give-another-fit', lambda: dict(status=repr(si), xdtype=case['xdtype'], maxdev=float(np.abs(np.asarray(bi.coeff, dtype='f8') - coeff).max()) if np.shape(bi.coeff) == coeff.shape else None))
+        note_label('xdtype:' + case['xdtype'])
+    if case.get('counts'):
+        cdt = case['counts']
+        yc = np.round(y / scale * 20000).astype('i8')
+        if cdt[0] == 'u':
+            yc = np.abs(yc)
+        wc = (1 + np.arange(n) % 3) * (w > 0)
+        bf, bc_ = fresh(), fresh()
+        call(bf.fit, x, yc.astype('f8'), wc.astype('f8'))
+        sc_, _ = call(bc_.fit, x, yc.astype(cdt), wc.astype(cdt))
+        with judge('integer-counts'):
+            dev = np.abs(np.asarray(bc_.coeff, dtype='f8') - np.asarray(bf.coeff, dtype='f8'))
+            check(bool(np.all(dev <= (1e-9 + 1e-14 * cond ** 2) * 20000 * 10)), 'fit:integer-y-and-weights-give-another-fit', lambda: dict(maxdev=float(dev.max()), dtype=cdt))
+        note_label('counts:' + cdt)
     # linearity
     ya = make_y(case, x, which=1)
     al, be = case['alpha'], case['beta']
